@@ -96,7 +96,7 @@ fn face_of(hex: &str) -> Option<(&'static [u8], Face<'static>)> {
 pub fn handle(toks: &[&str], _st: &mut crate::State) -> Option<String> {
     let t = &toks[1..];
     match *t.first()? {
-        "di" => Some((vuni::is_default_ignorable(num(t.get(1)?)?) as u8).to_string()),
+        "di" => Some((vuni::is_default_ignorable_u32(num(t.get(1)?)?) as u8).to_string()),
         "discan" => {
             let r = vuni::default_ignorable_ranges(num(t.get(1)?)?, num(t.get(2)?)?);
             Some(join(r.iter().map(|(a, b)| format!("{}-{}", a, b))))
